@@ -22,10 +22,10 @@ func TestVerifC05HS(t *testing.T) {
 		c05SuitesPart(),
 		c05KUDerivePart(),
 		c05RetryPart(),
-		c05PNReorderPart("pn-reorder-1rtt", c05PRConfig{level: c05Lv1RTT, version: protocol.Version1, suite: ref5.TLS_AES_128_GCM_SHA256, ku: true, depth: [2]int{7, 9}}),
-		c05PNReorderPart("pn-reorder-initial", c05PRConfig{level: c05LvInitial, version: protocol.Version1, depth: [2]int{7, 9}}),
-		c05PNReorderPart("pn-reorder-handshake", c05PRConfig{level: c05LvHandshake, version: protocol.Version2, suite: ref5.TLS_AES_256_GCM_SHA384, tier: 1, depth: [2]int{7, 9}}),
-		c05PNReorderPart("pn-reorder-1rtt-chacha-v2", c05PRConfig{level: c05Lv1RTT, version: protocol.Version2, suite: ref5.TLS_CHACHA20_POLY1305_SHA256, ku: true, tier: 1, depth: [2]int{7, 9}}),
+		c05PNReorderPart("pn-reorder-1rtt", c05PRConfig{level: c05Lv1RTT, version: protocol.Version1, suite: ref5.TLS_AES_128_GCM_SHA256, ku: true, depth: [2]int{7, 9}, jumps: c05PRJumpsNear}),
+		c05PNReorderPart("pn-reorder-initial", c05PRConfig{level: c05LvInitial, version: protocol.Version1, depth: [2]int{7, 9}, jumps: c05PRJumpsNear}),
+		c05PNReorderPart("pn-reorder-handshake", c05PRConfig{level: c05LvHandshake, version: protocol.Version2, suite: ref5.TLS_AES_256_GCM_SHA384, tier: 1, depth: [2]int{7, 8}, jumps: c05PRJumpsEdge, fourBytes: true}),
+		c05PNReorderPart("pn-reorder-1rtt-chacha-v2", c05PRConfig{level: c05Lv1RTT, version: protocol.Version2, suite: ref5.TLS_CHACHA20_POLY1305_SHA256, ku: true, tier: 1, depth: [2]int{7, 7}, jumps: c05PRJumpsWide, fourBytes: true}),
 		c05SetupInstallPart(),
 		c05SetupHandshakePart(),
 		c05KeyUpdatePart("keyupdate-v1", c05KUConfig{version: protocol.Version1, suite: ref5.TLS_AES_128_GCM_SHA256, first: 1, interval: 1, monitor: true, tier: 0, extraDepth: 1}),
